@@ -269,3 +269,21 @@ def upper_titles(wb):
                 dn.attr_text = "'" + new + "'!" + dn.attr_text.split('!')[1]
             done = True
     return clone_wb(w) if done else None
+
+
+def tab_first(wb, kind):
+    """a well-formed variant: the first tab of the given kind ('pump' / 'driver' / 'pipeline' ...) moved to the front of the workbook (tab order carries
+    no meaning for the loader: tabs are found by title)"""
+    w = clone_wb(wb)
+    for ws in w.worksheets:
+        if sheet_type(ws.title) == kind and w.index(ws) != 0:
+            w.move_sheet(ws, offset=-w.index(ws))
+            return clone_wb(w)
+    return None
+
+
+def tabs_reversed(wb):
+    """a well-formed variant: all tabs in reverse order"""
+    w = clone_wb(wb)
+    w._sheets = list(reversed(w._sheets))
+    return clone_wb(w)
